@@ -111,6 +111,10 @@ theorem inv_pop_noloader {s : State} {rest : List Msg} {p st it r : Nat} (h : In
   have hreg := reg_cases s
   inv_close
 
+theorem hookRunsFor_own (x : State) (hl : x.reg = .live) : hookRunsFor x x.peer = true := by
+  simp only [hookRunsFor]
+  split <;> simp [hl]
+
 theorem inv_mgr_responses {s : State} {rest : List Msg} {p st it : Nat} {hk : Bool} (h : Inv s)
     (hm : s.mphase = .idle) (hb : s.mbox = .responses p st it hk :: rest) :
     Inv (handle { s with mbox := rest } (.responses p st it hk)) := by
@@ -147,8 +151,11 @@ theorem inv_mgr_responses {s : State} {rest : List Msg} {p st it : Nat} {hk : Bo
           split
           · exact inv_pop_responses h hm hb (Or.inr (Or.inr (Or.inr hterm')))
           · exact inv_pop_responses (r := s.rq) h hm hb (Or.inr (Or.inr (Or.inr hterm')))
-      · -- own peer, hook error: the hook runs (the response passes the filter)
-        simp only [hl1, hl2, hp1, Bool.and_self, ite_self, if_true, Bool.false_eq_true, if_false]
+      · -- own peer, hook error: the hook runs (the response is of the tracked request's own peer)
+        subst hp
+        have hr := hookRunsFor_own { s with mbox := rest } hl
+        simp only at hr
+        simp only [hr, hl1, hl2, Bool.and_self, ite_self, if_true, Bool.false_eq_true, if_false]
         exact inv_cancelOnError h hm hl hb rfl rfl
     · -- other peer
       have hp1 : (p == s.peer) = false := by simpa using hp
